@@ -29,9 +29,7 @@ Inductive lexpr :=
 | LAw (op : awop) (a b : lexpr)
 | LInv (a : lexpr)
 | LShl (a b : lexpr)
-| LShr (a b : lexpr)
-| LLate (a : lexpr).               (* the same value as a; the source spells it through a symbol that is
-                                      defined further down (matters only to models of evaluation order) *)
+| LShr (a b : lexpr).
 
 Definition awz (op : awop) (x y : Z) : res Z :=
   match op with
@@ -61,7 +59,6 @@ Fixpoint zeval (env : list Z) (e : lexpr) : res Z :=
   | LInv a => do x <- zeval env a; Ok (Z.lnot x)
   | LShl a b => do x <- zeval env a; do y <- zeval env b; shlz x y
   | LShr a b => do x <- zeval env a; do y <- zeval env b; shrz x y
-  | LLate a => zeval env a
   end.
 
 (* a 16-bit signed-magnitude field: |v| < 2^16 is accepted and stored modulo 2^16 *)
